@@ -31,8 +31,47 @@ const hookPkg = "github.com/cloudwego/gopkg/simhook"
 const hookSrc = `// Package simhook exists only in the instrumented scratch copy built by /verif.
 package simhook
 
-// Fn, when set, is called before every statement of the library.
-var Fn func()
+import (
+	"sync/atomic"
+	"unsafe"
+)
+
+// Every call of a sync/atomic function in the library is routed through these wrappers, which
+// are scheduling points of their own: the window between two atomic operations of ONE
+// statement (Store(&x, Load(&x)&^bit)) becomes part of the schedule space too.
+func AtomicLoadInt32(addr *int32) int32 { YieldAtomic(); return atomic.LoadInt32(addr) }
+func AtomicStoreInt32(addr *int32, v int32) { YieldAtomic(); atomic.StoreInt32(addr, v) }
+func AtomicAddInt32(addr *int32, d int32) int32 { YieldAtomic(); return atomic.AddInt32(addr, d) }
+func AtomicSwapInt32(addr *int32, v int32) int32 { YieldAtomic(); return atomic.SwapInt32(addr, v) }
+func AtomicCompareAndSwapInt32(addr *int32, o, n int32) bool { YieldAtomic(); return atomic.CompareAndSwapInt32(addr, o, n) }
+func AtomicLoadInt64(addr *int64) int64 { YieldAtomic(); return atomic.LoadInt64(addr) }
+func AtomicStoreInt64(addr *int64, v int64) { YieldAtomic(); atomic.StoreInt64(addr, v) }
+func AtomicAddInt64(addr *int64, d int64) int64 { YieldAtomic(); return atomic.AddInt64(addr, d) }
+func AtomicSwapInt64(addr *int64, v int64) int64 { YieldAtomic(); return atomic.SwapInt64(addr, v) }
+func AtomicCompareAndSwapInt64(addr *int64, o, n int64) bool { YieldAtomic(); return atomic.CompareAndSwapInt64(addr, o, n) }
+func AtomicLoadUint32(addr *uint32) uint32 { YieldAtomic(); return atomic.LoadUint32(addr) }
+func AtomicStoreUint32(addr *uint32, v uint32) { YieldAtomic(); atomic.StoreUint32(addr, v) }
+func AtomicAddUint32(addr *uint32, d uint32) uint32 { YieldAtomic(); return atomic.AddUint32(addr, d) }
+func AtomicSwapUint32(addr *uint32, v uint32) uint32 { YieldAtomic(); return atomic.SwapUint32(addr, v) }
+func AtomicCompareAndSwapUint32(addr *uint32, o, n uint32) bool { YieldAtomic(); return atomic.CompareAndSwapUint32(addr, o, n) }
+func AtomicLoadUint64(addr *uint64) uint64 { YieldAtomic(); return atomic.LoadUint64(addr) }
+func AtomicStoreUint64(addr *uint64, v uint64) { YieldAtomic(); atomic.StoreUint64(addr, v) }
+func AtomicAddUint64(addr *uint64, d uint64) uint64 { YieldAtomic(); return atomic.AddUint64(addr, d) }
+func AtomicSwapUint64(addr *uint64, v uint64) uint64 { YieldAtomic(); return atomic.SwapUint64(addr, v) }
+func AtomicCompareAndSwapUint64(addr *uint64, o, n uint64) bool { YieldAtomic(); return atomic.CompareAndSwapUint64(addr, o, n) }
+func AtomicLoadUintptr(addr *uintptr) uintptr { YieldAtomic(); return atomic.LoadUintptr(addr) }
+func AtomicStoreUintptr(addr *uintptr, v uintptr) { YieldAtomic(); atomic.StoreUintptr(addr, v) }
+func AtomicAddUintptr(addr *uintptr, d uintptr) uintptr { YieldAtomic(); return atomic.AddUintptr(addr, d) }
+func AtomicSwapUintptr(addr *uintptr, v uintptr) uintptr { YieldAtomic(); return atomic.SwapUintptr(addr, v) }
+func AtomicCompareAndSwapUintptr(addr *uintptr, o, n uintptr) bool { YieldAtomic(); return atomic.CompareAndSwapUintptr(addr, o, n) }
+func AtomicLoadPointer(addr *unsafe.Pointer) unsafe.Pointer { YieldAtomic(); return atomic.LoadPointer(addr) }
+func AtomicStorePointer(addr *unsafe.Pointer, v unsafe.Pointer) { YieldAtomic(); atomic.StorePointer(addr, v) }
+func AtomicSwapPointer(addr *unsafe.Pointer, v unsafe.Pointer) unsafe.Pointer { YieldAtomic(); return atomic.SwapPointer(addr, v) }
+func AtomicCompareAndSwapPointer(addr *unsafe.Pointer, o, n unsafe.Pointer) bool { YieldAtomic(); return atomic.CompareAndSwapPointer(addr, o, n) }
+
+// Fn, when set, is called before every statement of the library (kind 0) and before every
+// sync/atomic operation (kind 1).
+var Fn func(kind int)
 
 // SeedBase and SeedCounter make the string-map hash seeds a function of the simulated run
 // (see internal/hash/maphash in this copy): with statement-level scheduling points the length
@@ -46,7 +85,14 @@ var (
 // Yield is the scheduling point inserted before every statement.
 func Yield() {
 	if f := Fn; f != nil {
-		f()
+		f(0)
+	}
+}
+
+// YieldAtomic is the scheduling point in front of a sync/atomic operation.
+func YieldAtomic() {
+	if f := Fn; f != nil {
+		f(1)
 	}
 }
 `
@@ -92,6 +138,20 @@ func String(seed Seed, s string) uint64 {
 	return mix(h ^ uint64(len(s)))
 }
 `
+
+var wrapped = map[string]bool{}
+var atomics = 0
+
+func init() {
+	for _, t := range []string{"Int32", "Int64", "Uint32", "Uint64", "Uintptr", "Pointer"} {
+		for _, op := range []string{"Load", "Store", "Add", "Swap", "CompareAndSwap"} {
+			if t == "Pointer" && op == "Add" {
+				continue
+			}
+			wrapped[op+t] = true
+		}
+	}
+}
 
 func yieldStmt() ast.Stmt {
 	return &ast.ExprStmt{X: &ast.CallExpr{Fun: &ast.SelectorExpr{X: ast.NewIdent("simhook"), Sel: ast.NewIdent("Yield")}}}
@@ -178,6 +238,62 @@ func main() {
 			return true
 		})
 		changed := false
+		// sync/atomic function calls -> simhook wrappers
+		atomicName := ""
+		for _, im := range f.Imports {
+			if im.Path.Value == `"sync/atomic"` {
+				atomicName = "atomic"
+				if im.Name != nil {
+					atomicName = im.Name.Name
+				}
+			}
+		}
+		atomicLeft := 0
+		if atomicName != "" {
+			ast.Inspect(f, func(n ast.Node) bool {
+				sel, ok := n.(*ast.SelectorExpr)
+				if !ok {
+					return true
+				}
+				id, ok := sel.X.(*ast.Ident)
+				if !ok || id.Name != atomicName || id.Obj != nil {
+					return true
+				}
+				if wrapped[sel.Sel.Name] {
+					id.Name = "simhook"
+					sel.Sel.Name = "Atomic" + sel.Sel.Name
+					changed = true
+					atomics++
+				} else {
+					atomicLeft++
+				}
+				return true
+			})
+			if atomicLeft == 0 {
+				// drop the now unused import
+				for _, d := range f.Decls {
+					gd, ok := d.(*ast.GenDecl)
+					if !ok || gd.Tok != token.IMPORT {
+						continue
+					}
+					var keep []ast.Spec
+					for _, sp := range gd.Specs {
+						if sp.(*ast.ImportSpec).Path.Value != `"sync/atomic"` {
+							keep = append(keep, sp)
+						}
+					}
+					gd.Specs = keep
+				}
+				var decls []ast.Decl
+				for _, d := range f.Decls {
+					if gd, ok := d.(*ast.GenDecl); ok && gd.Tok == token.IMPORT && len(gd.Specs) == 0 {
+						continue
+					}
+					decls = append(decls, d)
+				}
+				f.Decls = decls
+			}
+		}
 		ast.Inspect(f, func(n ast.Node) bool {
 			switch b := n.(type) {
 			case *ast.BlockStmt:
@@ -244,5 +360,5 @@ func main() {
 		}
 		fmt.Println("replaced internal/hash/maphash by the simulator-seeded stub")
 	}
-	fmt.Printf("instrumented %d files, %d statements\n", files, stmts)
+	fmt.Printf("instrumented %d files, %d statements, %d sync/atomic calls\n", files, stmts, atomics)
 }
